@@ -1652,7 +1652,7 @@ class Variogram(object):
         _y = y[~np.isnan(y)]
 
         # check if method is manual and a nugget was passed
-        if self.fit_method == 'manual' and kwargs.get('nugget', False):
+        if self.fit_method == 'manual' and kwargs.get('nugget', self._kwargs.get('fit_nugget', False)):
             self.use_nugget = True
 
         # handle harmonized models
